@@ -1,6 +1,8 @@
 package main
 
 import (
+	"strings"
+
 	"golang.org/x/tools/go/ssa"
 )
 
@@ -318,4 +320,129 @@ func goalInside(in map[*ssa.BasicBlock]bool, goal func(*ssa.BasicBlock) bool) bo
 		}
 	}
 	return false
+}
+
+// iterRun follows one iteration of the loop with the given header from its
+// body entry, atoms valued by av and globals fixed, until the header is reached
+// again ("next"), the loop is left ("exit") or the function returns; every
+// executed instruction is shown to watch together with the walker's choice of
+// edge for pointer-valued phis.
+func iterRun(h *ssa.BasicBlock, in map[*ssa.BasicBlock]bool, o exprOpts, av atomFn, globals map[string]int64, watch func(ssa.Instruction, map[*ssa.Phi]ssa.Value)) (outcome string, ret *ssa.Return, ok bool) {
+	memo := map[ssa.Value]string{}
+	env := intEnv{params: map[ssa.Value]int64{}, lens: map[ssa.Value]int64{}, unknown: map[ssa.Value]bool{}, cells: map[ssa.Value]int64{}, skipLoops: true, globals: globals, choice: map[*ssa.Phi]ssa.Value{}}
+	env.opaque = func(v ssa.Value) (int64, bool) {
+		if !isIntegerT(v.Type()) && !isBoolT(v.Type()) {
+			return 0, false
+		}
+		if _, isC := v.(*ssa.Const); isC {
+			return 0, false
+		}
+		s, have := memo[v]
+		if !have {
+			s = abbr(exprStr(v, o))
+			memo[v] = s
+		}
+		if s == "*" {
+			if _, isPhi := v.(*ssa.Phi); !isPhi {
+				return 0, false
+			}
+		}
+		return av(s)
+	}
+	if watch != nil {
+		env.watch = func(i ssa.Instruction, e intEnv) { watch(i, e.choice) }
+	}
+	n := 4000
+	env.fuel = &n
+	for _, s := range h.Succs {
+		if !in[s] {
+			continue
+		}
+		last := walkBlocks(s, h, env, func(b *ssa.BasicBlock) bool { return b == h || !in[b] && !endsInReturn(b) })
+		if last == nil {
+			return "", nil, false
+		}
+		if last == h {
+			return "next", nil, true
+		}
+		if r, isR := last.Instrs[len(last.Instrs)-1].(*ssa.Return); isR && !in[last] || isR {
+			// returns are executed (watch has seen the block) — walkBlocks stops at a return after running it
+			return "return", r, true
+		}
+		return "exit", nil, true
+	}
+	return "", nil, false
+}
+
+func endsInReturn(b *ssa.BasicBlock) bool {
+	_, ok := b.Instrs[len(b.Instrs)-1].(*ssa.Return)
+	return ok
+}
+
+// resolveChoice follows pointer phis along the edges the walker took.
+func resolveChoice(v ssa.Value, choice map[*ssa.Phi]ssa.Value) ssa.Value {
+	for i := 0; i < 8; i++ {
+		p, ok := v.(*ssa.Phi)
+		if !ok {
+			return v
+		}
+		c, ok := choice[p]
+		if !ok {
+			return v
+		}
+		v = c
+	}
+	return v
+}
+
+// byteOrderSort: call sorts its first argument ascending by the bytes of the
+// elements (or of one field): sort.Slice(x, less) with less = bytes.Compare(x[i]…, x[j]…) < 0,
+// or slices.SortFunc(x, cmp) with cmp = bytes.Compare(a…, b…). Returns the field ("" for whole elements).
+func byteOrderSort(call *ssa.Call) (field string, ok bool) {
+	sc := call.Call.StaticCallee()
+	if sc == nil || len(call.Call.Args) != 2 {
+		return "", false
+	}
+	name := sc.String()
+	if sc.Origin() != nil {
+		name = sc.Origin().String()
+	}
+	var cmp *ssa.Function
+	switch x := stripConv(call.Call.Args[1]).(type) {
+	case *ssa.MakeClosure:
+		cmp, _ = x.Fn.(*ssa.Function)
+	case *ssa.Function:
+		cmp = x
+	}
+	if cmp == nil {
+		return "", false
+	}
+	rs := abbrMap(returnShapesO(cmp, robustOpts))["ret"]
+	if len(rs) != 1 {
+		return "", false
+	}
+	s := rs[0]
+	switch name {
+	case "sort.Slice", "sort.SliceStable":
+		for _, l := range []string{"*fv0", "fv0"} {
+			pre := "(bytes.Compare(" + l + "[p0]"
+			if strings.HasPrefix(s, pre) && strings.HasSuffix(s, "[:]) < 0)") {
+				mid := s[len(pre) : len(s)-len("[:]) < 0)")] // F[:], L[p1]F
+				parts := strings.Split(mid, "[:], "+l+"[p1]")
+				if len(parts) == 2 && parts[0] == parts[1] {
+					return strings.TrimPrefix(parts[0], "."), true
+				}
+			}
+		}
+	case "slices.SortFunc", "slices.SortStableFunc":
+		pre := "bytes.Compare(p0"
+		if strings.HasPrefix(s, pre) && strings.HasSuffix(s, "[:])") {
+			mid := s[len(pre) : len(s)-len("[:])")]
+			parts := strings.Split(mid, "[:], p1")
+			if len(parts) == 2 && parts[0] == parts[1] {
+				return strings.TrimPrefix(parts[0], "."), true
+			}
+		}
+	}
+	return "", false
 }
